@@ -91,6 +91,7 @@ structure GbRec where
 
 structure RefLayout where
   range : List Nat := []         -- the REFERENCE line itself (number, two blanks, range) may be wrapped
+  trailGap : Bool := false       -- an empty range written as the number followed by the two blanks (`REFERENCE   1  `)
   authors : List Nat := []
   title : List Nat := []
   journal : List Nat := []
@@ -216,8 +217,13 @@ def locusLine (l : RLocus) (n : Nat) (ℓ : RecLayout) : Str :=
 def refHead (i : Nat) (r : RRef) : Str :=
   ofNat (i + 1) ++ (if r.range = [] then [] else c!"  " ++ r.range)
 
+/-- the REFERENCE line (with its continuation lines when the range is wrapped) -/
+def refHeadLines (i : Nat) (r : RRef) (ℓ : RefLayout) : List Str :=
+  if ℓ.trailGap = true ∧ r.range = [] then [padRight c!"REFERENCE" 12 ++ ofNat (i + 1) ++ c!"  "]
+  else block c!"REFERENCE" (refHead i r) ℓ.range
+
 def refLines (i : Nat) (r : RRef) (ℓ : RefLayout) : List Str :=
-  block c!"REFERENCE" (refHead i r) ℓ.range
+  refHeadLines i r ℓ
     ++ (optBlock c!"  AUTHORS" r.authors ℓ.authors ++ optBlock c!"  TITLE" r.title ℓ.title
         ++ optBlock c!"  JOURNAL" r.journal ℓ.journal ++ optBlock c!"  PUBMED" r.pubmed ℓ.pubmed
         ++ optBlock c!"  REMARK" r.remark ℓ.remark)
